@@ -992,13 +992,20 @@ def plan_lp(rng, mmax, nmax):
                 obj = -obj
         lpcols.append({"obj": fstr(obj), "lo": fstr(lo), "up": up, "col": sv_json(cols[j])})
     ops = [["SOLVE"]]
+    ncur = n
     for _ in range(rng.randint(1, 3)):
         ops.append(["TIMES", sv_json(gen_rhs(rng, m, "R", rng.choice(["unit", "sparse", "dense"])))])
     for _ in range(rng.randint(0, 2)):
         # modify the LP, then query without and with a new solve: the cached factorization must not be reused
         j = rng.randrange(n)
         i = rng.randrange(m)
-        ops.append(["CHGELEM", i, j, fstr(rq(rng))])
+        if ncur >= 2 and rng.random() < 0.4:
+            # remove a column that is not the last one: the last column takes its number, a cached factorization and its
+            # index array must follow (or be dropped)
+            ops.append(["RMCOL", rng.randrange(ncur - 1)])
+            ncur -= 1
+        else:
+            ops.append(["CHGELEM", i, min(j, ncur - 1), fstr(rq(rng))])
         ops.append(["QUERY"])
         ops.append(["TIMES", sv_json(gen_rhs(rng, m, "R"))])
         if rng.random() < 0.6:
@@ -1018,6 +1025,8 @@ def lp_text(cid, c):
             out.append("TIMES " + svtext("R", op[1]))
         elif op[0] == "CHGELEM":
             out.append("CHGELEM %d %d %s" % (op[1], op[2], op[3]))
+        elif op[0] == "RMCOL":
+            out.append("RMCOL %d" % op[1])
         else:
             out.append(op[0])
     return out
@@ -1045,6 +1054,12 @@ def walk_lp(ck, cid, c, obs, Q, pending):
         if op[0] == "CHGELEM":
             pos += 1
             cols[op[2]][op[1]] = fparse(op[3])
+            state["ok"] = False
+            continue
+        if op[0] == "RMCOL":
+            pos += 1
+            cols[op[1]] = cols[-1]
+            cols.pop()
             state["ok"] = False
             continue
         if op[0] in ("SOLVE", "QUERY"):
